@@ -31,8 +31,8 @@ def main():
     # 2. spec -> code: behaviours written by TLC's simulator (deep trees, long interleavings) replayed on the real
     #    containers; C outcomes must be exactly the specification's; then on the sanitizer build
     sims = []
-    for (nk, lf, it, num, depth, mu, mo) in ([(8, 2, 2, 500, 40, 14, 5), (8, 3, 2, 300, 40, 12, 6), (16, 2, 2, 200, 70, 16, 10)] if quick else
-                                             [(8, 2, 2, 4000, 44, 16, 5), (8, 3, 2, 2500, 44, 14, 6), (8, 2, 3, 2500, 44, 14, 6), (10, 2, 2, 2500, 50, 16, 7), (16, 2, 2, 3000, 90, 18, 11)]):
+    for (nk, lf, it, num, depth, mu, mo) in ([(8, 2, 2, 500, 40, 14, 5), (8, 3, 2, 300, 40, 12, 6), (6, 4, 2, 400, 30, 12, 4), (16, 2, 2, 200, 70, 16, 10)] if quick else
+                                             [(8, 2, 2, 4000, 44, 16, 5), (8, 3, 2, 2500, 44, 14, 6), (6, 4, 2, 3000, 34, 14, 4), (8, 2, 3, 2500, 44, 14, 6), (10, 2, 2, 2500, 50, 16, 7), (16, 2, 2, 3000, 90, 18, 11)]):
         c = icfg(nk, 2, lf, it, mu, mo, 4, spec='SSpec', invs=('OutcomeOK', 'InBounds'), view=False)
         fn, behs, summ = tlc.simulate_behaviours('IterSim', c, num, depth, seed=ck.seed + 1)
         ck.add_tlc(summ, 'IterSim simulation keys=%d sizes=(%d,%d): %d behaviours' % (nk, lf, it, len(behs)))
@@ -45,7 +45,7 @@ def main():
                 for impl in (('c', 'py') if flavour == 'plain' else ('c',)):
                     for is_set in (True, False):
                         nparts = 2 if impl == 'c' else 4
-                        for p in range(nparts if not quick else 1):
+                        for p in range(nparts if not quick else (2 if impl == 'py' and not is_set else 1)):
                             plan.append(dict(fam=fam, impl=impl, is_set=is_set, leaf=lf, internal=it, dump=fn,
                                              part=(p + len(plan)) % nparts, nparts=nparts, pure=(impl == 'py')))
         results = jobs.run_jobs('harness.workers.iter_worker', plan, flavour=flavour, pure=True)
